@@ -409,7 +409,7 @@ func checkC10(c *hx.Checker) {
 		}
 	}
 	// PRelu on larger tensors with odd element counts (block-splitting kernels), slope of the same shape and broadcast
-	for _, n := range []int{1025, 4099, 32771, 65539} {
+	for _, n := range []int{1025, 4099, 32771, 65539, 2048, 4096, 65536} {
 		for _, dt := range []ref.DT{ref.F32, ref.F64, ref.I32} {
 			for _, ssh := range [][]int{{n}, {1}, {3, n}} {
 				xsh := []int{n}
